@@ -453,3 +453,53 @@ Proof. split; vm_compute; reflexivity. Qed.
 Example ex_no_double : run init [HSend; HDo 0 (DoStatus 204); HRecv 0] = None /\
                        run init [HSend; HDo 0 (DoStatus 200); HRecv 0; HRecv 0] = None.
 Proof. split; vm_compute; reflexivity. Qed.
+
+(** * The channel as seen by a client while it is open (part of "same results as
+      over a direct connection"): as long as Close has not been called, nothing is
+      drained, and once every request goroutine has returned, every reply that is
+      not an empty 204 acknowledgement has been returned by exactly one Recv and
+      no 204 by any -- i.e. Recv yields exactly the non-empty replies, each once,
+      in some order. *)
+Lemma step_open s l s' : phase s = COpen -> l <> HClose -> step s l = Some s' ->
+  phase s' = COpen /\ forall j, is_drain j l = false.
+Proof.
+  intros P NC St. unfold step in St. destruct l; cbn in St; rewrite ?P in St; try discriminate; try congruence.
+  - injection St as <-. split; [reflexivity|]. intros; reflexivity.
+  - destruct (nth_error (gs s) j) as [[| |]|]; try discriminate.
+    destruct (is204 r); injection St as <-; (split; [exact P|intros; reflexivity]).
+  - destruct (nth_error (gs s) j) as [[| |]|]; try discriminate. injection St as <-.
+    split; [exact P|intros; reflexivity].
+Qed.
+
+Lemma open_no_drain tr s : run init tr = Some s -> ~ In HClose tr ->
+  phase s = COpen /\ forall j, n_drain j tr = 0.
+Proof.
+  revert s; induction tr as [|l tr IH] using rev_ind; intros s.
+  - intros [= <-] _. split; reflexivity.
+  - intros H NI. apply run_snoc in H as (s0 & R & St).
+    assert (NI0 : ~ In HClose tr) by (intros X; apply NI; apply in_or_app; left; exact X).
+    assert (NL : l <> HClose) by (intros ->; apply NI; apply in_or_app; right; left; reflexivity).
+    destruct (IH s0 R NI0) as [P0 D0]. destruct (step_open _ _ _ P0 NL St) as [P1 D1].
+    split; [exact P1|]. intros j. unfold n_drain. rewrite countl_app. fold (n_drain j tr). rewrite D0.
+    unfold countl; cbn. rewrite D1. reflexivity.
+Qed.
+
+Theorem chan_delivers_all tr s :
+  run init tr = Some s -> ~ In HClose tr -> forallb is_done (gs s) = true ->
+  forall j, j < n_send tr ->
+    exists r, dos j tr = [r] /\ n_drain j tr = 0 /\ n_recv j tr = (if is204 r then 0 else 1).
+Proof.
+  intros R NC AD j Hj. destruct (open_no_drain _ _ R NC) as [_ ND].
+  destruct (run_tinv _ _ R) as [Hl Hf]. rewrite <- Hl in Hj.
+  destruct (nth_error (gs s) j) as [g|] eqn:E; [|apply nth_error_None in E; lia].
+  assert (Dg : is_done g = true).
+  { rewrite forallb_forall in AD. apply AD. eapply nth_error_In; eauto. }
+  destruct g as [|r|r d]; try discriminate. specialize (Hf j). rewrite E in Hf. cbn in Hf.
+  exists r. specialize (ND j).
+  destruct d; destruct Hf as (D & R2 & A & B); rewrite R2; repeat split; auto; lia.
+Qed.
+
+Example ex_delivers_all_nonvacuous :
+  exists s, run init [HSend; HSend; HDo 1 (DoStatus 200); HDo 0 (DoStatus 204); HSend; HRecv 1; HDo 2 DoErr; HRecv 2] = Some s /\
+            forallb is_done (gs s) = true /\ phase s = COpen.
+Proof. eexists. split; [vm_compute; reflexivity|]. split; reflexivity. Qed.
